@@ -15,6 +15,7 @@ mod oracle;
 mod re;
 mod rng;
 mod tables;
+mod timerange;
 mod run;
 
 use std::io::{BufRead, Write};
@@ -75,12 +76,31 @@ fn gen_stream(stream: &str, n: u64, seed: u64) {
         "relaw" => for _ in 0..n { writeln!(w, "{}", re::gen_relaw_line(&mut r)).unwrap(); },
         "ord" => for _ in 0..n { let a = gen::gen_val(&mut r, 2); let b = if r.chance(1, 6) { a.clone() } else { gen::gen_val(&mut r, 2) }; let c = if r.chance(1, 6) { b.clone() } else { gen::gen_val(&mut r, 2) };
             writeln!(w, "ord {} {} {}", show_in(&a), show_in(&b), show_in(&c)).unwrap(); },
+        // C16: n = 0 → quick sample; n = 1 → everything (all 3 652 059 dates of years 1..9999, all 86 400 000 ms of day)
+        "tmrange" => {
+            let chunk = 20000i64;
+            if n >= 1 { let mut z = -719162i64; while z < 2932897 { writeln!(w, "tmrange d {} {}", z, chunk.min(2932897 - z)).unwrap(); z += chunk; }
+                        let mut ms = 0i64; while ms < 86400000 { writeln!(w, "tmrange t {} {}", ms, (100000i64).min(86400000 - ms)).unwrap(); ms += 100000; }
+                        for i in 0..200 { writeln!(w, "tmrange c {} 5000", seed.wrapping_mul(1000).wrapping_add(i)).unwrap(); } }
+            else { for _ in 0..40 { writeln!(w, "tmrange d {} 2000", (r.below(3652059 - 2000) as i64) - 719162).unwrap(); }
+                   for z in [-719162i64, 2932896 - 1999, -1000, 10957 - 1000, 11016 - 500] { writeln!(w, "tmrange d {} 2000", z).unwrap(); }   // year 1, year 9999, 1970, 2000 leap day
+                   for _ in 0..40 { writeln!(w, "tmrange t {} 5000", r.below(86400000 - 5000)).unwrap(); }
+                   for ms in [0i64, 86400000 - 5000, 3600000 - 2500, 43200000 - 2500] { writeln!(w, "tmrange t {} 5000", ms).unwrap(); }
+                   for i in 0..20 { writeln!(w, "tmrange c {} 2000", seed.wrapping_mul(1000).wrapping_add(i)).unwrap(); } } }
+        "mathlaw" => {
+            // all code points (chunks), integers around 0 / 2^53 / random, doubles from the boundary pool + random bits
+            let mut cp = 0u32; while cp < 0x110000 { writeln!(w, "mathlaw cp {} {}", cp, 4096.min(0x110000 - cp)).unwrap(); cp += 4096; }
+            for i in -2000i64..=2000 { writeln!(w, "mathlaw int {}", i).unwrap(); }
+            for d in -40i64..=40 { for b in [1i64 << 53, 1 << 52, 1 << 31, 1 << 32, 1 << 62, 1000000] { writeln!(w, "mathlaw int {}", b + d).unwrap(); writeln!(w, "mathlaw int {}", -b + d).unwrap(); } }
+            for _ in 0..n { writeln!(w, "mathlaw int {}", (r.next() as i64) >> r.below(64)).unwrap();
+                let x = gen::gen_num(&mut r); let y = gen::gen_num(&mut r); writeln!(w, "mathlaw num {:016x} {:016x}", x.to_bits(), y.to_bits()).unwrap(); } }
         "poslaw" => for _ in 0..n {
             let s: String = match r.below(3) { 0 => gen::gen_str(&mut r), _ => { let k = r.below(9); (0..k).map(|_| *r.pick(&['a', 'b', 'ä', 'ß', '𝄞', 'c', ' ', 'e', '\u{301}', 'Σ', '1'])).collect() } };
             let cs: Vec<char> = s.chars().collect();
             let x: String = if r.chance(2, 3) && !cs.is_empty() { let a = r.usize(cs.len()); let b = a + r.usize(cs.len() - a + 1); cs[a..b].iter().collect() } else { (0..r.below(3)).map(|_| *r.pick(&['a', 'ä', 'z', '𝄞'])).collect() };
             writeln!(w, "poslaw {} {}", hex(&s), hex(&x)).unwrap(); },
         "sortlaw" => for _ in 0..n { let args = call::gen_args(&mut r, "sort"); if let Some(a @ slac::Value::Array(_)) = args.first() { writeln!(w, "sortlaw {}", show_in(a)).unwrap(); } },
+        "dcall" => { let bs = slac::stdlib::builtins(); for _ in 0..n { for f in &bs { writeln!(w, "{}", call::gen_dcall_line(&mut r, f)).unwrap(); } } }
         "env" => for _ in 0..n { let big = r.chance(1, 10); let len = 1 + r.usize(if big { 200 } else { 20 }); let wide = r.chance(1, 2); writeln!(w, "{}", tree::gen_env_line(&mut r, len, wide)).unwrap(); },
         "envex" => { let a = tree::env_alphabet().len() as u64; for len in 1..=(n as usize) { for i in 0..a.pow(len as u32) { writeln!(w, "{}", tree::env_exhaustive(i, len)).unwrap(); } } }
         _ => { eprintln!("unknown stream {stream}"); std::process::exit(2); }
